@@ -292,8 +292,25 @@ def main(tier, seed):
         log("T5 aborted:\n" + msg)
         res.coverage.update({"obligations": 1, "discharged": 0, "checker_cmd": "translators/t5_cfg.py", "trusted_base": TRUSTED,
                              "evaluations": 0, "distinct_nontrivial": 0, "rule": "T5 aborted", "samples": [msg[-400:]]})
-        res.violation({"property": PID, "kind": "translation aborted (unknown mnemonic / indirect branch / unsupported rsp write)",
-                       "t5_output": msg, "seed": seed}, note="no-failing-input-found", name="t5_abort")
+        # failing-input search without the static information: the API-level trampoline over the whole matrix
+        witness = None
+        try:
+            exe = common.build_harness("k4_regs", extra_src=["k4_tramp.S"])
+            kr = run_k4(exe, ["--quiet", "--seed", str(seed)] + (["--quick"] if tier == "quick" else []), 1800)
+            if kr["clobbers"]:
+                witness = clobber_fields(kr["clobbers"][0])
+            elif kr["crashed"]:
+                witness = {"reg": "crash(rc=%s)" % kr["rc"], "line": kr.get("crash_line") or kr["stderr_tail"][-300:]}
+        except Exception as ex:      # noqa
+            log("k4 search failed: %r" % (ex,))
+        rp = {"property": PID, "kind": "translation aborted (unknown mnemonic / indirect branch / unsupported rsp write)",
+              "t5_output": msg, "seed": seed}
+        if witness:
+            rp["dynamic_witness"] = witness
+            rp["k4_args"] = ["--quiet", "--variant", witness.get("variant", "sse"), "--suite", witness.get("suite", "direct")]
+            res.violation(rp, note="T5 aborted; dynamic witness: %s fn=%s" % (witness["reg"], witness.get("fn")), name="t5_abort")
+        else:
+            res.violation(rp, note="T5 aborted (the tree can no longer be translated) no-failing-input-found", name="t5_abort")
         return res.finish()
     for l in p5.stdout.splitlines():
         log(l)
